@@ -89,6 +89,10 @@ FAMILIES["all_reap"] = fam(av=dict(minNodes=1, cordoned=[False, True], force=[Fa
 # every state of a group that has more nodes than max_nodes: the scan must not act on it at all
 FAMILIES["all_overmax"] = fam(av=dict(minNodes=2, cordoned=[False, True], force=[False, True], nodel=[False], taint=[-1, -2, 0, 1, 2, 3], run=[0, 1], pend=[0, 1], extra=[0], lost=[False], lock=[-1, 1]),
                               FaultOps=["terminate"], MaxFaults=1, cfg=dict(min=0, max=1), KC=4, KM=4, AsgMin0=0, emit=1)
+# every state of a two-node group with distinct ages and no-delete annotations, scale-down by one node: the annotation must not
+# change which node is tainted (it protects from removal, not from tainting)
+FAMILIES["all_annotscale"] = fam(av=dict(minNodes=2, created=[3, 4], nodel=[False, True], run=[0, 1], cordoned=[False], taint=[-1, 1]),
+                                 cfg=dict(min=0, max=3, slow=1, fast=1), KC=4, KM=4, AsgMin0=0, emit=1)
 FAMILIES["all_annot"] = fam(av=dict(minNodes=1, cordoned=[False], force=[False, True], nodel=[False, True], taint=[-1, 1, 2, 3], run=[0, 1], extra=[0], lost=[False]),
                             FaultOps=[], MaxFaults=0, cfg=dict(min=0), KC=4, KM=4, AsgMin0=0, emit=1)
 FAMILIES["all_scale"] = fam(av=dict(minNodes=0, created=[3, 4], cordoned=[False, True], force=[False, True], taint=[-1, 0, 2], run=[0, 1, 2], pend=[0, 1, 3], extra=[0, 1], lock=[-1, 0, 1, 2], delta=[0, 1]),
